@@ -354,12 +354,27 @@ def opDe (st : DState) (kind : String) (s : Nat) (doc : String) : DState × Stri
     | none => (st, "bad-op")
   | _ => (st, "bad-op")
 
-/-- `extend` / the loop of `from_iter`: `get_or_intern` (infallible) on every item in order. -/
-def internAll (st : DState) (s : Nat) : List Bytes → DState × String
-  | [] => (st, "ok")
-  | x :: rest =>
-    let (st', out) := opIntern st s x true
-    if out.startsWith "ok" then internAll st' s rest else (st', out)
+/-- `extend`: the model's loop; a failing item panics and leaves what was interned before it. -/
+def opExtend (st : DState) (s : Nat) (xs : List Bytes) : DState × String :=
+  match getSlot st s with
+  | .rodeo r =>
+    let (r', ok) := r.extend st.env xs
+    (setSlot st s (.rodeo r'), if ok then "ok" else "panic")
+  | .threaded t =>
+    let (t', ok) := t.extend st.env xs
+    (setSlot st s (.threaded t'), if ok then "ok" else "panic")
+  | _ => (st, "bad-op")
+
+/-- `from_iter`: a panic inside unwinds through the half-built interner, nothing is produced. -/
+def opFromIter (st : DState) (s : Nat) (kind : String) (xs : List Bytes) : DState × String :=
+  match kind with
+  | "rodeo" =>
+    let (r, ok) := Rodeo.fromIter st.env st.N xs
+    if ok then (setSlot st s (.rodeo r), "ok") else (setSlot st s .gone, "panic")
+  | "threaded" =>
+    let (t, ok) := Threaded.fromIter st.env st.N xs
+    if ok then (setSlot st s (.threaded t), "ok") else (setSlot st s .gone, "panic")
+  | _ => (st, "bad-op")
 
 def opAudit (st : DState) (a : Nat) : String :=
   let o := getSlot st a
@@ -453,7 +468,7 @@ def stepOp (st : DState) (toks : List String) : DState × String :=
     | some s => (setSlot st s .gone, "ok")
     | none => (st, "bad-op")
   | ["extend", s, items] => match s.toNat?, unhexList items with
-    | some s, some xs => internAll st s xs
+    | some s, some xs => opExtend st s xs
     | _, _ => (st, "bad-op")
   | [op, a, b] =>
     match a.toNat?, b.toNat? with
@@ -513,14 +528,7 @@ def stepOp (st : DState) (toks : List String) : DState × String :=
     | some s => opDe st kind s doc
     | none => (st, "bad-op")
   | ["fromIter", s, kind, items, _hint] => match s.toNat?, unhexList items with
-    | some s, some xs =>
-      -- `Capacity::for_strings(hint)`: default 4096 bytes, no limit
-      match newObj st kind 4096 usizeMax with
-      | some o =>
-        -- a panic inside `from_iter` unwinds through the half-built interner: nothing is produced
-        let (st', out) := internAll (setSlot st s o) s xs
-        if out == "ok" then (st', out) else (setSlot st' s .gone, out)
-      | none => (st, "bad-op")
+    | some s, some xs => opFromIter st s kind xs
     | _, _ => (st, "bad-op")
   | ["audit", s] => match s.toNat? with
     | some s => (st, opAudit st s)
